@@ -71,7 +71,7 @@ def roundtrip(cfg: dict, stmts: list, readers=("flat", "to_graph", "sink_parse",
         if cfg.get("failed_attempt_first") and stmts and cfg["entry"] != "sink_serialize":
             data = serialize_after_failed_attempt(cfg, stmts)
         else:
-            data = pj.serialize(cfg, stmts)
+            data = pj.serialize(cfg, stmts, [tuple(b) for b in cfg.get("bindings") or []])
     except Exception as e:  # noqa: BLE001
         return {"clause": "serializer-raised", "summary": f"{type(e).__name__}: {e}"}
     broken = monitors.take_broken()
@@ -91,7 +91,7 @@ def roundtrip(cfg: dict, stmts: list, readers=("flat", "to_graph", "sink_parse",
             return {"clause": "parser-raised", "reader": reader, "summary": f"{reader}: {type(e).__name__}: {e}",
                     "bytes": data.hex()}
         got = [T.norm_stmt(e[1]) for e in evs if e[0] == "stmt"]
-        other = [e for e in evs if e[0] != "stmt"]
+        other = [e for e in evs if e[0] != "stmt" and not cfg.get("ns")]       # (declarations themselves are C14's question)
         if got != want or other:
             i = next((k for k, (a, b) in enumerate(zip(got, want)) if a != b), min(len(got), len(want)))
             return {"clause": "roundtrip-differs", "reader": reader,
@@ -160,13 +160,22 @@ def run_shard(ctx):
             if rng.random() < .12 and stmts:
                 cfg["failed_attempt_first"] = rng.randint(1, len(stmts))
                 ctx.observe("retry-after-failed-attempt-with-same-options-object")
+            elif cfg["entry"] in ("grouped_to_file", "stream_frames_sink") and rng.random() < .5:
+                # the sink also carries namespace bindings and the stream declares them: the statements must come
+                # back all the same (1-90 bindings against the case's frame size: declarations alone can fill frames)
+                k = rng.choice([1, 1, 2, 6, 90])
+                cfg["bindings"] = [(f"p{j}", f"http://ex.org/nsdecl/{j % 7}/{j}#") for j in range(k)]
+                cfg["ns"] = True
+                n, p, d = cfg["preset"]
+                cfg["preset"] = (max(n, 8), max(p, 1) if p else 0, d)
+                ctx.observe("sinks-with-declared-namespaces")
         r = roundtrip(cfg, stmts)
         ctx.observe("roundtrips-compared")
         ctx.observe(f"entry:{cfg['entry']}")
         ctx.observe(f"physical:{cfg['physical']}")
         ctx.observe("delimited" if cfg["delimited"] else "non-delimited")
         if not r.get("ok"):
-            small = workloads.shrink_list(stmts, lambda s: _check(cfg, s) is not None)
+            small = workloads.shrink_list(stmts, lambda s: _check(cfg, s) is not None) if not cfg.get("ns") else stmts
             w = _check(cfg, small) or r
             w.update({"cfg": cfg, "stmts": T.to_json(small), "case": [ctx.shard, i - 1]})
             ctx.violation(w)
